@@ -59,7 +59,8 @@ class Step(VC):
                     p0, v0 = s0.get(k, (False, None)); p1, v1 = s1.get(k, (False, None))
                     same = zand(zeq(p0, p1), zor(znot(p1), spec_eq(ctx, v0, v1) if v0 is not None and v1 is not None else False))
                     own_spend = ns == "allowances" and self.variant == "Execute" and ctx.atom_of(k[0]) is ctx.atom_of(sender)
-                    ob.require(f"C17.{ns}_change_only_by_admin" + ("_or_own_spend" if ns == "allowances" else ""), zor(same, adm, own_spend))
+                    # a subkey's own spending may lower an allowance it already has; it never creates one
+                    ob.require(f"C17.{ns}_change_only_by_admin" + ("_or_own_spend" if ns == "allowances" else ""), zor(same, adm, zand(own_spend, p0)))
         ob.witness("ok")
         ob.twin("twin.admin_list_never_changes", zand(same_admins, same_flag) if self.variant in ("UpdateAdmins", "Freeze") else False)
 
